@@ -181,17 +181,17 @@ impl Scalar {
 }
 
 #[verifier::external_body]
-const fn scalar_zero_() -> (r: Scalar) ensures r == s_zero() { unimplemented!() }
+const fn scalar_zero_() -> (r: Scalar) ensures r == s_zero() { Scalar { _p: [0u8; 32] } }
 #[verifier::external_body]
-const fn scalar_one_() -> (r: Scalar) ensures r == s_one() { unimplemented!() }
+const fn scalar_one_() -> (r: Scalar) ensures r == s_one() { Scalar { _p: [1u8; 32] } }
 #[verifier::external_body]
-const fn g1_identity_() -> (r: G1Projective) ensures r == g1_zero() { unimplemented!() }
+const fn g1_identity_() -> (r: G1Projective) ensures r == g1_zero() { G1Projective { _p: [0u8; 48] } }
 #[verifier::external_body]
-const fn g1_generator_() -> (r: G1Projective) ensures r == g1_gen() { unimplemented!() }
+const fn g1_generator_() -> (r: G1Projective) ensures r == g1_gen() { G1Projective { _p: [1u8; 48] } }
 #[verifier::external_body]
-const fn g2_generator_() -> (r: G2Projective) ensures r == g2_gen() { unimplemented!() }
+const fn g2_generator_() -> (r: G2Projective) ensures r == g2_gen() { G2Projective { _p: [1u8; 96] } }
 #[verifier::external_body]
-const fn gt_identity_() -> (r: Gt) ensures r == gt_one() { unimplemented!() }
+const fn gt_identity_() -> (r: Gt) ensures r == gt_one() { Gt { _p: [0u8; 96] } }
 
 // Operators.  `a op b` on owned operands; the spec result is the uninterpreted algebra function.
 impl vstd::std_specs::ops::AddSpecImpl<Scalar> for Scalar {
@@ -360,6 +360,11 @@ impl G2Projective {
     #[verifier::external_body]
     pub fn to_affine(&self) -> (r: G2Affine)
         ensures r == g2_to_aff(*self),
+    { unimplemented!() }
+
+    #[verifier::external_body]
+    pub fn is_identity(&self) -> (r: Choice)
+        ensures r@ == (*self == g2_zero()),
     { unimplemented!() }
 }
 
